@@ -9,7 +9,7 @@ positioned at the first line of frame `pos` — that pair is the representation 
 import vtlib.xhfix  # noqa: F401  (CrossHair configuration; see module docstring)
 import io
 
-from crosshair import realize
+from vtlib.xhfix import conc
 
 import mdtraj.formats.arc as _arc
 import mdtraj.formats.lammpstrj as _lmp
@@ -73,7 +73,7 @@ class Store:
 
 
 def mk_mdcrd(total, pos, box=False):
-    total, pos = realize(total), realize(pos)
+    total, pos = conc(total), conc(pos)
     frames = _MDCRD[bool(box)][:total]
     st = Store(_TITLE + b"".join(frames), True)
     _mdcrd.open = st.open
@@ -89,7 +89,7 @@ def mk_mdcrd(total, pos, box=False):
 
 
 def mk_xyz(total, pos):
-    total, pos = realize(total), realize(pos)
+    total, pos = conc(total), conc(pos)
     frames = _XYZ[:total]
     st = Store("".join(frames), False)
     _xyz.open = st.open
@@ -104,7 +104,7 @@ def mk_xyz(total, pos):
 
 
 def mk_lammpstrj(total, pos):
-    total, pos = realize(total), realize(pos)
+    total, pos = conc(total), conc(pos)
     frames = _LMP[:total]
     st = Store("".join(frames), False)
     _lmp.open = st.open
@@ -121,7 +121,7 @@ def mk_lammpstrj(total, pos):
 
 
 def mk_arc(total, pos):
-    total, pos = realize(total), realize(pos)
+    total, pos = conc(total), conc(pos)
     frames = _ARC[:total]
     st = Store("".join(frames), False)
     _arc.open = st.open
